@@ -1,5 +1,6 @@
 import RichModel.Lemmas.LayoutFits
 import RichModel.Lemmas.LayoutTableCols
+import RichModel.Lemmas.LayoutTableNil
 /-!
 The table and columns cases of the induction behind C01, and the induction itself (`good`, `goodL`).
 -/
@@ -26,40 +27,65 @@ theorem ann_fits (cfg : Cfg) (ok : CfgOk cfg) (t : Option T) (j : Justify) (o : 
           text_closed cfg ok.hp t _ tw.toNat hd.2⟩
         exact hd.1
 
+theorem tableExtra_subst (env : Env) (o : TableOpts) (n : Nat) : tableExtra (o.subst env) n = tableExtra o n := by
+  unfold tableExtra TableOpts.subst
+  simp only [Option.isSome_map]
+
+theorem colsR_nil (cfg : Cfg) : colsR cfg [] = [] := by rw [colsR]
+
 theorem good_table (cfg : Cfg) (ok : CfgOk cfg) (to : TableOpts) (cols : List Col) : Good cfg (.table to cols) := by
   intro o w _ hs hd
   rw [render]
   rw [Dom] at hd
-  obtain ⟨ht, hc, hne, hfree, hwd⟩ := hd
+  obtain ⟨ht, hc, hfree, hwd⟩ := hd
   rw [smin] at hs
   have hlen := colsR_length cfg cols
   have hsc := sminCols_ge_length cfg.cw to cols
-  obtain ⟨tw, body, htw, heq, hlines, hclosed⟩ := tableConsole_decomp cfg ok.hcw ok.hfl to o (colsR cfg cols) w
-    (by intro h; apply hne; have := congrArg List.length h; rw [hlen] at this; exact List.eq_nil_of_length_eq_zero (by simpa using this))
-    (by
-      intro c hc
-      obtain ⟨x, hx, rfl⟩ := colsR_mem cfg cols c hc
-      rw [colR_o]
-      exact hfree x hx)
-    (by
-      intro c hc ch hch k
-      obtain ⟨x, _, rfl⟩ := colsR_mem cfg cols c hc
-      obtain ⟨r, o', rfl⟩ := colR_cells cfg x ch hch
-      exact (chOf_measure_normal cfg r o' k).1)
-    (by rw [hlen]; omega)
-    (by
-      intro tw' htw'
-      rw [hlen]
-      have := hwd tw' htw'
-      rw [htw'] at hs
-      simp only [Option.getD_some] at hs
-      constructor <;> omega)
-  rw [heq]
-  obtain ⟨hf1, hc1⟩ := ann_fits cfg ok to.title to.titleJustify o tw w htw ht
-  obtain ⟨hf2, hc2⟩ := ann_fits cfg ok to.caption to.captionJustify o tw w htw hc
-  have hfb := fits_of_lines_le _ _ _ hlines
-  exact ⟨fits_append _ _ _ _ (closed_append _ _ hc1 hclosed) (fits_append _ _ _ _ hc1 hf1 hfb) hf2,
-    fun _ => closed_append _ _ (closed_append _ _ hc1 hclosed) hc2⟩
+  have hex := tableExtra_subst cfg.env to cols.length
+  -- title ++ body ++ caption, whatever the number of columns
+  have key : tableConsole cfg (to.subst cfg.env) o (colsR cfg cols) w = cfg.poison ∨
+      ∃ (tw : Int) (body : List Seg), tw ≤ (w : Int) ∧
+        tableConsole cfg (to.subst cfg.env) o (colsR cfg cols) w =
+          annotation cfg to.title to.titleJustify o tw ++ body ++ annotation cfg to.caption to.captionJustify o tw ∧
+        (∀ l ∈ splitLines body, lineLength cfg.cw l ≤ w) ∧ Closed body := by
+    cases hcols : cols with
+    | nil =>
+      rw [colsR_nil]
+      have := tableConsole_nil_decomp cfg ok.hcw (to.subst cfg.env) o w (by
+        rw [hcols] at hs hex; simp only [List.length_nil] at hs hex; rw [hex]; omega)
+      exact this
+    | cons c0 cs =>
+      right
+      rw [← hcols]
+      exact tableConsole_decomp cfg ok.hcw ok.hfl (to.subst cfg.env) o (colsR cfg cols) w
+        (by intro h; have := congrArg List.length h; rw [hlen, hcols] at this; simp at this)
+        (by
+          intro c hc'
+          obtain ⟨x, hx, rfl⟩ := colsR_mem cfg cols c hc'
+          rw [colR_o]
+          exact hfree x hx)
+        (by
+          intro c hc' ch hch k
+          obtain ⟨x, _, rfl⟩ := colsR_mem cfg cols c hc'
+          obtain ⟨r, o', rfl⟩ := colR_cells cfg x ch hch
+          exact (chOf_measure_normal cfg r o' k).1)
+        (by rw [hlen, hex]; omega)
+        (by
+          intro tw' htw'
+          rw [hlen, hex]
+          have htw'' : to.width = some tw' := htw'
+          have := hwd tw' htw''
+          rw [htw''] at hs
+          simp only [Option.getD_some] at hs
+          constructor <;> omega)
+  rcases key with h | ⟨tw, body, htw, heq, hlines, hclosed⟩
+  · rw [h, ok.hp]; exact ⟨fits_nil _ _, fun _ => closed_nil⟩
+  · rw [heq]
+    obtain ⟨hf1, hc1⟩ := ann_fits cfg ok to.title to.titleJustify o tw w htw ht
+    obtain ⟨hf2, hc2⟩ := ann_fits cfg ok to.caption to.captionJustify o tw w htw hc
+    have hfb := fits_of_lines_le _ _ _ hlines
+    exact ⟨fits_append _ _ _ _ (closed_append _ _ hc1 hclosed) (fits_append _ _ _ _ hc1 hf1 hfb) hf2,
+      fun _ => closed_append _ _ (closed_append _ _ hc1 hclosed) hc2⟩
 
 theorem good_columns (cfg : Cfg) (ok : CfgOk cfg) (co : ColsOpts) (items : List R) : Good cfg (.columns co items) := by
   intro o w hw hs hd
@@ -88,6 +114,7 @@ mutual
 /-- **C01 by structural induction** over the renderable tree. -/
 theorem good (cfg : Cfg) (ok : CfgOk cfg) : ∀ r : R, Good cfg r
   | .text t => good_text cfg ok t
+  | .str t => good_str cfg ok t
   | .padding p e c => good_padding cfg ok p e c
   | .panel po c => good_panel cfg ok po c
   | .align ao c => good_align cfg ok ao c (good cfg ok c)
